@@ -464,6 +464,13 @@ class CommentBlock(LeafNode, _CommentBlockBase):
         """The combined string of all comments in this block"""
         return ''.join(comment.text for comment in self.comments)
 
+    def _rebuild(self, *args, **kwargs):
+        # A rebuilt block gets its own copies of the comments it is made of
+        kwargs['comments'] = tuple(c._rebuild() for c in kwargs.get('comments', self.comments))
+        return super()._rebuild(*args, **kwargs)
+
+    clone = _rebuild
+
     def __repr__(self):
         return f'CommentBlock:: {truncate_string(self.text)}'
 
